@@ -9,6 +9,9 @@ CONSTANTS
   MaxLose = 0
   QuorumDelta = 1
   CheckConfirm = TRUE
+  HoldBack = {}
+  PinSeq = TRUE
+  TxStream <- StreamDef
 VIEW View
 INVARIANTS CntShape OneConfirmedPerSeq ConfirmedPrefixAgree AckedOnQuorum QuorumCountMeansQuorumHeld
 PROPERTY AckedStable
